@@ -89,6 +89,9 @@ func (n *Nodis) Clear() {
 		return true
 	})
 	n.store.watchMu.Unlock()
+	n.notify(func() []patch.Op {
+		return []patch.Op{{Type: patch.OpTypeClear, Data: &patch.OpClear{}}}
+	})
 }
 
 // notify hands the change records of a command to the key watchers. It runs inside the command's
